@@ -3,6 +3,7 @@
 For each of
     calculate_treelikelihood_discrete            (tip partials)
     calculate_treelikelihood_tip_states_discrete (tip states)
+    calculate_treelikelihood_discrete_rescaled / _discrete_safe / _tip_states_discrete_rescaled
 the translator reads, from the source as it is now,
   * the loop `for node, left, right in post_indexing:` and what it stores into `partials[node]`,
   * the expression that is returned,
@@ -212,6 +213,37 @@ def translate(path=None):
     if not (isinstance(a, ast.Assign) and ast.unparse(a.targets[0]) == "partials[node]"):
         _fail(a, "the tip-state loop does not assign partials[node]")
     body = _expr(a.value, {"p_left": sides["left"], "p_right": sides["right"]})
+    # ---- tip states, rescaled: the same two branches, then partial / scaler
+    fr = fns.get("calculate_treelikelihood_tip_states_discrete_rescaled")
+    if fr is None:
+        raise TranslateError("calculate_treelikelihood_tip_states_discrete_rescaled not found")
+    src = [ast.unparse(s_) for s_ in fr.body if isinstance(s_, ast.Assign)]
+    want = ["tip_count = len(post_indexing) + 1",
+            "mat_tips = torch.cat((mats[..., :tip_count, :, :, :], "
+            "torch.ones(mats[..., :tip_count, :, :, :].shape[:-1] + (1,))), -1)", "scalers = []"]
+    if src != want:
+        raise TranslateError(f"unexpected set-up of the rescaled tip-state recursion: {src}")
+    lpr = _find_loop(fr)
+    if len(lpr.body) != 6:
+        _fail(lpr, "rescaled tip-state loop body is not (if left) (if right) partial scaler append store")
+    sides_r = {}
+    for st, side in zip(lpr.body[:2], ("left", "right")):
+        if not (isinstance(st, ast.If) and ast.unparse(st.test) == f"{side} < tip_count"
+                and len(st.body) == 1 and len(st.orelse) == 1
+                and isinstance(st.body[0], ast.Assign) and isinstance(st.orelse[0], ast.Assign)
+                and ast.unparse(st.body[0].targets[0]) == f"p_{side}"
+                and ast.unparse(st.orelse[0].targets[0]) == f"p_{side}"):
+            _fail(st, f"unexpected branch for the {side} child (rescaled tip states)")
+        sides_r[side] = (f"(if Nat.ltb {side} tip_count then {_expr(st.body[0].value, {})} "
+                         f"else {_expr(st.orelse[0].value, {})})")
+    pa = lpr.body[2]
+    if not (isinstance(pa, ast.Assign) and ast.unparse(pa.targets[0]) == "partial"):
+        _fail(pa, "expected `partial = ...`")
+    body_r = _expr(pa.value, {"p_left": sides_r["left"], "p_right": sides_r["right"]})
+    # the remaining three statements are checked by _rescaled_body (the first one is re-read there)
+    _num_ignored, rest_r = _rescaled_body([ast.parse("partial = partials[node]").body[0]] + lpr.body[3:], lpr)
+    if rest_r:
+        _fail(lpr, "unexpected statements after the rescaled tip-state update")
     out += ["(* partials[node] = p_left * p_right of calculate_treelikelihood_tip_states_discrete;",
             "   [states i] = the tip state stored in partials[i] for i < tip_count, [tipcol M s] = column s of M",
             "   augmented with a last column of ones *)",
@@ -219,6 +251,11 @@ def translate(path=None):
             "    (partials : nat -> vec (T:=T)) (node left right : nat) : vec (T:=T) :=",
             "  let tipcol := tip_message_state N S in", "  " + body + ".", "",
             "Definition g_return_states : rshape := " + _return_shape(f) + ".", "",
+            "(* numerator of partials[node] = partial / scaler in calculate_treelikelihood_tip_states_discrete_rescaled *)",
+            "Definition g_update_states_rescaled_num (S tip_count : nat) (mats : nat -> mat (T:=T)) (states : nat -> nat)",
+            "    (partials : nat -> vec (T:=T)) (node left right : nat) : vec (T:=T) :=",
+            "  let tipcol := tip_message_state N S in", "  " + body_r + ".", "",
+            "Definition g_return_states_rescaled : rshape := " + _return_shape_rescaled(fr) + ".", "",
             "End Gen."]
     return "\n".join(out) + "\n"
 
